@@ -268,7 +268,7 @@ func pathMutations(r rd, comp int32, write bool) (base string, muts []mutation) 
 // ---- token strings ---------------------------------------------------------
 
 var (
-	hex64      = "e3b0c44298fc1c149afbf4c8996fb92427ae41e4649b934ca495991b7852b855"
+	hex64       = "e3b0c44298fc1c149afbf4c8996fb92427ae41e4649b934ca495991b7852b855"
 	tokenAlphaA = []string{
 		"", "a", "blobs", "uploads", "compressed-blobs", "zstd", "bogus", "sha256", "blake3",
 		hex64, hex64[:63], hex64 + "0", strings.ToUpper(hex64), "12", "-1", "x", fixedUUIDString,
